@@ -78,6 +78,7 @@ type Term struct {
 	aux1 int
 	aux2 int
 	smt  string // cached SMT text
+	hash uint64 // structural hash (0: not computed)
 }
 
 func (t *Term) IsConst() bool { return t.op == OpConstBool || t.op == OpConstBV || t.op == OpConstStr }
